@@ -148,7 +148,7 @@ def in_pristine_child(fn, *args):
     return pickle.loads(data)
 
 
-def _run_history(hist, fresh_registry_between):
+def _run_history(hist, fresh_registry_between, probe=False):
     files = pool()
     import hashlib
     obs = []
@@ -159,7 +159,42 @@ def _run_history(hist, fresh_registry_between):
             impl.fresh_registry()
         obs.append(observe_file(name, text))
         states.append(hashlib.md5(repr(global_state()).encode()).hexdigest()[:12])
+    if probe:
+        # a sensitive victim corpus run from the state the history left behind (sources first, headers last,
+        # so that a header of the corpus itself cannot mask what an earlier header of the history did)
+        return [hashlib.md5(repr(observe_file(n, t)).encode()).hexdigest()[:10] for n, t in probe_corpus()]
     return obs, states
+
+
+_probe = None
+
+
+def probe_corpus():
+    global _probe
+    if _probe is None:
+        from .. import carriers
+        from . import c08, diffcommon
+        files = [(v["fname"], v["text"]) for v in carriers.violating("quick", per_op=1)]
+        files += [(c["fname"], c["text"]) for c in carriers.conforming("quick", cap=40)]
+        files += [(e["fname"], e["text"]) for e in diffcommon.enriched()] + c08.dense_family()
+        h = header42.header_text("spin.c") + "\n"
+        files.append(("spin.c", h + "void\tft_wait(int *flag)\n{\n\twhile (*flag) /* wait */\n\t\t;\n}\n"))
+        files.append(("decl.c", h + "static int /* c */\tg_x;\n\nint\tmain(void)\n{\n\tint\t// c\n\t\ti;\n\n\treturn (0);\n}\n"))
+        # whitespace-sensitivity victims: a comment / a tab / two blanks at every token boundary of a small function
+        base = "int\tft_probe(int n, char *p)\n{\n\tint\ti;\n\n\ti = 0;\n\twhile (p[i] && i < n)\n\t\ti++;\n\treturn (i);\n}\n"
+        toks, _, _ = impl.lex(base, "probe.c")
+        from ..model import lexref
+        al = lexref.align(base, toks, set())
+        for k, (a, b_) in enumerate(al["spans"]):
+            for ins in ("/* c */", "\t", "  "):
+                files.append((f"probe{k}.c", h.replace("spin.c", f"probe{k}.c") + base[:a] + ins + base[a:]))
+        files.sort(key=lambda f: (f[0].endswith(".h"),))
+        _probe = files
+    return _probe
+
+
+def probe_task(hist):
+    return in_pristine_child(_run_history, hist, False, True)
 
 
 def history_task(task):
@@ -304,6 +339,28 @@ def run(tier, seed):
         st.caps.append(f"global-state BFS stopped at depth {maxdepth} with {len(frontier)} open states")
     st.states = len(seen)
     st.bump("distinct_global_states", len(seen))
+    # ---- a sensitive victim corpus from every distinct global state (DESIGN §4.6 'start from non-initial states')
+    reps = list(seen.values())
+    pres = explore.pmap(probe_task, reps, chunksize=1)
+    names = [n for n, _ in probe_corpus()]
+    base_probe = None
+    for h, r in zip(reps, pres):
+        if r[0] != "ok":
+            raise HarnessError(f"probe after {h}: {r}")
+        if h == ():
+            base_probe = r[1]
+    st.runs += len(reps) * len(names)
+    st.transitions += len(reps) * len(names)
+    st.bump("probe_corpus_files", len(names))
+    for h, r in zip(reps, pres):
+        if h == ():
+            continue
+        diff = [names[i] for i, (a, b_) in enumerate(zip(r[1], base_probe)) if a != b_]
+        if diff:
+            culprit = files[h[-1]][0]
+            failures.append(Failure("C06", f"probe:{culprit}->{diff[0]}",
+                                    f"after history {[files[i][0] for i in h]} the diagnostics of {len(diff)} corpus files differ "
+                                    f"from a pristine process (first: {diff[0]})", {"kind": "probe", "hist": list(h)}))
     # ---- un-merged: all histories of length <= 2 (quick) / 3 (thorough); twice in a row; fresh Registry between files
     L = 2 if tier == "quick" else 3
     hs = [h for n in range(2, L + 1) for h in itertools.product(range(nf), repeat=n)]
@@ -389,6 +446,10 @@ def judge_history(h, obs, baseline, files, failures, mode, states=None, init=Non
 
 def replay(payload):
     files = pool()
+    if payload["kind"] == "probe":
+        a = in_pristine_child(_run_history, (), False, True)
+        b_ = in_pristine_child(_run_history, tuple(payload["hist"]), False, True)
+        return [Failure("C06", "probe", "differs", payload)] if a != b_ else []
     if payload["kind"] == "history":
         h = tuple(payload["hist"])
         fresh = payload["mode"] == "fresh-registry"
